@@ -149,6 +149,17 @@ Theorem C20_continue_then_restart : forall c s clk k0 v0 ops fc fj p,
 Proof. exact fault_continue_restart. Qed.
 Print Assumptions C20_continue_then_restart.
 
+Theorem C20_continue_then_restart_del : forall c s clk k0 ops fc fj p,
+  Inv s -> rep fc (s_dir s) -> junked (s_active s) p fj fc -> torn_entry p ->
+  let x := after_failed_append s clk in
+  run_ready c (fst (fst (step c x (ODel k0)))) ops ->
+  trace_wf (snd (run c x (ODel k0 :: ops))) ->
+  let '(x', rs, t) := run c x (ODel k0 :: ops) in
+  Inv x' /\ rs = spec_run (abs s) (ODel k0 :: ops) /\
+  exists fj', fs_run fj t = Some fj' /\ img_ok fj' (abs x').
+Proof. exact fault_continue_restart_del. Qed.
+Print Assumptions C20_continue_then_restart_del.
+
 (* Non-vacuity of 6 and 7: after SET k 1, a SET k 2 fails in its flush.  Reads see 1; a restart that comes first
    applies the buffered record (k reads 2 afterwards); a SET of another key first discards it (k reads 1 after
    the restart). *)
